@@ -73,5 +73,58 @@ def main(argv):
     return rc
 
 
+
+
+def verify_corpus():
+    """fast re-check: every mutant is still killed by its pinned corpus
+    case alone (./check <ID> --replay corpus-file against the mutated copy,
+    expect exit 1) and the same file passes on the unchanged tree"""
+    table = {
+        'C18_bpch2_lookup_order': 'corpus-bpch2_lookup_order.json',
+        'C18_dim_noreverse': 'corpus-dim_noreverse.json',
+        'C18_drop_offset': 'corpus-drop_offset.json',
+        'C18_skip_off': 'corpus-skip_off_writer_tau1.json',
+        'C18_writer_tau1': 'corpus-skip_off_writer_tau1.json',
+        'C19_format_5e': 'corpus-format_5e.json',
+        'C19_header_count': 'corpus-header_count.json',
+        'C19_mask_le': 'corpus-mask_le.json',
+        'C19_scale_count': 'corpus-scale_count.json',
+        'C20_checksum_256': 'corpus-checksum_256.json',
+        'C20_exp_no_plus1': 'corpus-exp_no_plus1.json',
+        'C20_reader_levels': 'corpus-reader_levels.json',
+        'C20_round_127': 'corpus-round_127.json',
+        'C20_unpack_axis': 'corpus-unpack_axis.json',
+    }
+    rc = 0
+    for name, cf in sorted(table.items()):
+        prop = name.split('_')[0]
+        patch = os.path.join(ROOT, 'mutants', name + '.patch')
+        cpath = os.path.join(ROOT, 'replays', prop, cf)
+        shutil.rmtree(SCRATCH, ignore_errors=True)
+        os.makedirs(SCRATCH)
+        shutil.copytree('/repo/src', os.path.join(SCRATCH, 'src'))
+        subprocess.check_call('cd %s && patch -p1 -s < %s' % (SCRATCH, patch),
+                              shell=True)
+        env = dict(os.environ, VF_REPO=os.path.join(SCRATCH, 'src'))
+        m = subprocess.run([os.path.join(ROOT, 'check'), prop, '--replay',
+                            cpath], env=env, capture_output=True, text=True)
+        env = dict(os.environ, VF_REPO='/repo/src')
+        u = subprocess.run([os.path.join(ROOT, 'check'), prop, '--replay',
+                            cpath], env=env, capture_output=True, text=True)
+        sig = [ln.strip() for ln in m.stdout.split('\n')
+               if ln.strip().startswith('signature:')]
+        ok = m.returncode == 1 and u.returncode == 0
+        print('%-26s mutant exit=%d unchanged exit=%d %s %s' % (
+            name, m.returncode, u.returncode, 'OK' if ok else 'PROBLEM',
+            '; '.join(sig)[:160]))
+        if not ok:
+            rc = 1
+            print(m.stdout[-300:], u.stdout[-300:])
+        shutil.rmtree(SCRATCH, ignore_errors=True)
+    return rc
+
+
 if __name__ == '__main__':
+    if len(sys.argv) > 1 and sys.argv[1] == '--corpus':
+        sys.exit(verify_corpus())
     sys.exit(main(sys.argv[1:]))
